@@ -39,7 +39,8 @@ Record analysis := { a_cmds : list command; a_structs : list struct; a_events : 
 
 (* GenerateConfig: the fields that matter to a run (interface/config.rs:18-72) *)
 Record config := { g_lib : str; g_private : bool; g_maps : option (list (str * str));
-                   g_pcase : str; g_fcase : str; g_viz : bool; g_force : bool }.
+                   g_pcase : str; g_fcase : str; g_viz : bool; g_force : bool;
+                   g_ppath : str (* project_path as spelled: file_path = g_ppath/<file> *) }.
 
 (* ---- a project on disk and the discovery order ---- *)
 Record sfile := { sf_path : str; sf_cmds : list command; sf_structs : list struct; sf_events : list event }.
@@ -81,45 +82,61 @@ Definition analyse (w : sched) (p : project) : analysis :=
 Definition maps_in_order (w : sched) (c : config) : option (list (str * str)) :=
   match g_maps c with None => None | Some l => Some (pick ([], []) l (w_maps w)) end.
 
-(* ---- the fingerprint (generation_cache.rs after the repair C08-C14-hash-inputs) ---- *)
+(* Path::strip_prefix of the project path (generation_cache.rs relative_to_project): the file path relative to
+   the project path when it lies below it, the path itself otherwise *)
+Fixpoint strip_pre (pre s : str) : option str :=
+  match pre, s with
+  | [], _ => Some s
+  | a :: pre', b :: s' => if Ascii.eqb a b then strip_pre pre' s' else None
+  | _ :: _, [] => None
+  end.
+Definition rel_path (root file : str) : str :=
+  match strip_pre (root ++ L "/") file with Some r => r | None => file end.
+
+(* ---- the fingerprint (generation_cache.rs after the repairs C08-C14-hash-inputs, C14-3, C08-6) ---- *)
 (* hash_commands: CommandHashData / ParameterHashData / ChannelHashData, commands sorted by (file, name);
    serde_rename of parameters and serde_rename_all of commands are part of the data *)
 Definition hp (p : param) : tree := TN [TA (p_name p); TA (p_type p); TB (p_opt p); topt (p_rename p)].
 Definition hch (c : chan) : tree := TN [TA (ch_param c); TA (ch_msg c)].
-Definition hc (c : command) : tree :=
-  TN [TA (c_name c); TA (c_file c); TN (map hp (c_params c)); TA (c_ret c); TB (c_async c); TN (map hch (c_chans c));
+Definition hc (root : str) (c : command) : tree :=
+  TN [TA (c_name c); TA (rel_path root (c_file c)); TN (map hp (c_params c)); TA (c_ret c); TB (c_async c); TN (map hch (c_chans c));
       topt (c_rename_all c)].
 (* hash_structs: StructHashData / FieldHashData, sorted by name; serde_rename, validator_attributes of the
    fields and serde_rename_all of the struct are part of the data *)
 Definition hf (f : field) : tree :=
   TN [TA (f_name f); TA (f_type f); TB (f_opt f); TB (f_pub f); topt (f_rename f); topt (f_valid f)].
-Definition hs (s : struct) : tree :=
-  TN [TA (s_name s); TA (s_file s); TB (s_enum s); TN (map hf (s_fields s)); topt (s_rename_all s)].
+Definition hs (root : str) (s : struct) : tree :=
+  TN [TA (s_name s); TA (rel_path root (s_file s)); TB (s_enum s); TN (map hf (s_fields s)); topt (s_rename_all s)].
 (* hash_config: six fields; type_mappings through a BTreeMap = the pairs sorted by key, whatever the
    iteration order of the HashMap they are collected from; visualize_deps *)
 Definition kv_leb (a b : str * str) : bool := str_leb (fst a) (fst b).
 Definition hmaps (o : option (list (str * str))) : tree :=
   match o with None => TN [] | Some l => TN [TN (map (fun kv => TN [TA (fst kv); TA (snd kv)]) (isort kv_leb l))] end.
 
-Definition cmd_leb (a b : command) : bool :=
-  if str_eqb (c_file a) (c_file b) then str_leb (c_name a) (c_name b) else str_leb (c_file a) (c_file b).
+(* sort key (relative file, name) *)
+Definition cmd_leb (root : str) (a b : command) : bool :=
+  if str_eqb (rel_path root (c_file a)) (rel_path root (c_file b)) then str_leb (c_name a) (c_name b)
+  else str_leb (rel_path root (c_file a)) (rel_path root (c_file b)).
 
-Definition fp_cmds (a : analysis) : tree := TN (map hc (isort cmd_leb (a_cmds a))).
-Definition fp_structs (a : analysis) : tree := TN (map hs (isort struct_leb (a_structs a))).
+Definition fp_cmds (root : str) (a : analysis) : tree := TN (map (hc root) (isort (cmd_leb root) (a_cmds a))).
+Definition fp_structs (root : str) (a : analysis) : tree := TN (map (hs root) (isort struct_leb (a_structs a))).
+(* the project path itself is hashed only while visualize_deps is on (the graph prints the paths as given) *)
 Definition fp_cfg (c : config) : tree :=
-  TN [TA (g_lib c); TB (g_private c); hmaps (g_maps c); TA (g_pcase c); TA (g_fcase c); TB (g_viz c)].
+  TN [TA (g_lib c); TB (g_private c); hmaps (g_maps c); TA (g_pcase c); TA (g_fcase c); TB (g_viz c);
+      (if g_viz c then TN [TA (g_ppath c)] else TN [])].
+(* with_events: name and payload type of every discovered event, in discovery order *)
+Definition u_events (a : analysis) : tree := TN (map (fun e => TN [TA (e_name e); TA (e_payload e)]) (a_events a)).
 
 Definition fp (w : sched) (p : project) (c : config) : tree :=
-  TN [fp_cmds (analyse w p); fp_structs (analyse w p); fp_cfg c].
+  TN [fp_cmds (g_ppath c) (analyse w p); fp_structs (g_ppath c) (analyse w p); fp_cfg c; u_events (analyse w p)].
 
-(* ---- data that reaches the output but not the hash: the remaining recorded classes 6 and 8 ---- *)
-Definition u_events (a : analysis) : tree := TN (map (fun e => TN [TA (e_name e); TA (e_payload e)]) (a_events a)).
+(* ---- data that reaches the output but not the hash: the remaining recorded class 8 ---- *)
 (* the text graph prints file:line of every command (dependency_graph.rs); line_number is not hashed *)
 Definition u_lines (a : analysis) (c : config) : tree :=
   if g_viz c then TN (map (fun k => TA (c_line k)) (a_cmds a)) else TN [].
 
 Definition unhashed (w : sched) (p : project) (c : config) : list tree :=
-  let a := analyse w p in [u_events a; u_lines a c].
+  let a := analyse w p in [u_lines a c].
 
 (* ---- the files of a forced generation, in write order, as views of the data they are rendered from ----
    ts/generator.rs:176-199, zod/generator.rs:297-317 (types, commands, [events], index),
@@ -135,11 +152,13 @@ Definition has_events (a : analysis) : bool := match a_events a with [] => false
 Definition files (w : sched) (p : project) (c : config) : list (fname * tree) :=
   let a := analyse w p in
   let lib := TA (g_lib c) in
-  [ (Types, TN [lib; fp_cmds a; fp_structs a; fp_cfg c]);
-    (Commands, TN [lib; fp_cmds a; fp_cfg c]) ]
+  let root := g_ppath c in
+  [ (Types, TN [lib; fp_cmds root a; fp_structs root a; fp_cfg c]);
+    (Commands, TN [lib; fp_cmds root a; fp_cfg c]) ]
   ++ (if has_events a then [(Events, TN [lib; u_events a; fp_cfg c])] else [])
   ++ [ (Index, TN [lib; TB (has_events a)]) ]
-  ++ (if g_viz c then [ (GraphTxt, TN [fp_cmds a; fp_structs a; u_lines a c]); (GraphDot, TN [fp_cmds a; fp_structs a]) ] else []).
+  ++ (if g_viz c then [ (GraphTxt, TN [fp_cmds root a; fp_structs root a; fp_cfg c; u_lines a c]);
+                        (GraphDot, TN [fp_cmds root a; fp_structs root a; fp_cfg c]) ] else []).
 
 Definition has_commands (p : project) : bool :=
   existsb (fun f => match sf_cmds f with [] => false | _ => true end) p.
